@@ -56,7 +56,9 @@ TypeOK == data \in [Series -> Partial]
 
 ----------------------------------------------------------------------------
 (* Points and bags.  A bag of values is a set P of points <<s, i>>.        *)
-Pts(G, I) == {p \in G \X I : p[2] \in DOMAIN data[p[1]]}
+Pts(G, I) == UNION {{<<s, i>> : i \in I \cap DOMAIN data[s]} : s \in G}
+OfSeries(P, s) == {p \in P : p[1] = s}        \* the points of P that belong to series s
+AtSlot(P, t)   == {p \in P : p[2] = t}        \* the points of P at slot t
 Val(p) == data[p[1]][p[2]]
 Card(P) == Cardinality(P)
 
@@ -168,7 +170,8 @@ What(w, dg, qstep, lstep) ==
       [] w = "stdvar"   -> Q(dg.cnt * dg.sumsq - dg.sum * dg.sum, dg.cnt * dg.cnt)
       [] w = "stddev"   -> [n |-> dg.cnt * dg.sumsq - dg.sum * dg.sum, d |-> dg.cnt * dg.cnt, q |-> 1]
 
-Storage(w, G, I, qstep, lstep) == IF Pts(G, I) = {} THEN None ELSE What(w, Digest(Pts(G, I)), qstep, lstep)
+\* P = the raw points of the group's series in the bucket
+Storage(w, P, qstep, lstep) == IF P = {} THEN None ELSE What(w, Digest(P), qstep, lstep)
 
 ----------------------------------------------------------------------------
 (* REDUCTION RULES (reductions.go transcribed).                            *)
@@ -205,30 +208,30 @@ Outer(op, sq) ==
            [] op = "count" -> Q(Len(sq), 1)
            [] op = "avg" -> LET s == QSum(sq) IN Q(s.n, s.d * Len(sq))
 RECURSIVE Inner2(_, _, _), Inner3(_, _, _)
-\* the Known values f(points of s in I), s in G, as a sequence (order irrelevant)
-Inner2(f, G, I) == IF G = {} THEN <<>>
+\* P = Pts(G, I).  The Known values f(points of s), s in G, as a sequence (order irrelevant)
+Inner2(f, G, P) == IF G = {} THEN <<>>
                    ELSE LET s == CHOOSE y \in G : TRUE
-                            v == Def(f, Pts({s}, I))
-                        IN (IF Known(v) THEN <<v>> ELSE <<>>) \o Inner2(f, G \ {s}, I)
-\* the Known values agg(points of G at t), t in I
-Inner3(agg, G, I) == IF I = {} THEN <<>>
+                            v == Def(f, OfSeries(P, s))
+                        IN (IF Known(v) THEN <<v>> ELSE <<>>) \o Inner2(f, G \ {s}, P)
+\* the Known values agg(points at t), t in I
+Inner3(agg, P, I) == IF I = {} THEN <<>>
                      ELSE LET t == CHOOSE y \in I : TRUE
-                              v == Def(agg, Pts(G, {t}))
-                          IN (IF Known(v) THEN <<v>> ELSE <<>>) \o Inner3(agg, G, I \ {t})
+                              v == Def(agg, AtSlot(P, t))
+                          IN (IF Known(v) THEN <<v>> ELSE <<>>) \o Inner3(agg, P, I \ {t})
 
-\* agg over the series of G of f over the slots I
-TwoLevel2(agg, f, G, I) == Outer(agg, Inner2(f, G, I))
+\* agg over the series of G of f over the slots I          (P = Pts(G, I))
+TwoLevel2(agg, f, G, P) == Outer(agg, Inner2(f, G, P))
 \* f over the slots I of agg over the series of G
-TwoLevel3(f, agg, G, I) == Outer(f, Inner3(agg, G, I))
+TwoLevel3(f, agg, P, I) == Outer(f, Inner3(agg, P, I))
 
 (* side conditions under which pooling equals the two-level definition *)
-Pre2(agg, f, G, I) ==
-    CASE agg = "avg"   -> ~PreAvg \/ \A s1, s2 \in G : Pts({s1}, I) # {} /\ Pts({s2}, I) # {} => Card(Pts({s1}, I)) = Card(Pts({s2}, I))
-      [] agg = "count" -> ~PreCount \/ \A s \in G : Card(Pts({s}, I)) <= 1
+Pre2(agg, f, G, P) ==
+    CASE agg = "avg"   -> ~PreAvg \/ \A s1, s2 \in G : OfSeries(P, s1) # {} /\ OfSeries(P, s2) # {} => Card(OfSeries(P, s1)) = Card(OfSeries(P, s2))
+      [] agg = "count" -> ~PreCount \/ \A s \in G : Card(OfSeries(P, s)) <= 1
       [] OTHER -> TRUE
-Pre3(f, agg, G, I) ==
-    CASE f = "avg"   -> ~PreAvg \/ \A t1, t2 \in I : Pts(G, {t1}) # {} /\ Pts(G, {t2}) # {} => Card(Pts(G, {t1})) = Card(Pts(G, {t2}))
-      [] f = "count" -> ~PreCount \/ \A t \in I : Card(Pts(G, {t})) <= 1
+Pre3(f, agg, P, I) ==
+    CASE f = "avg"   -> ~PreAvg \/ \A t1, t2 \in I : AtSlot(P, t1) # {} /\ AtSlot(P, t2) # {} => Card(AtSlot(P, t1)) = Card(AtSlot(P, t2))
+      [] f = "count" -> ~PreCount \/ \A t \in I : Card(AtSlot(P, t)) <= 1
       [] OTHER -> TRUE
 
 ----------------------------------------------------------------------------
@@ -252,25 +255,28 @@ DigestIsDefinition ==
 \* rule #0  agg(m)  at the raw resolution (bucket = one slot = one second)
 Rule0Exact ==
     \A G \in AllGroups, t \in Slots :
-        Pts(G, {t}) # {} => \A agg \in Agg5 : Eq(Storage(Rule0What(agg), G, {t}, 1, 1), AggAt(agg, G, t))
+        LET P == Pts(G, {t}) IN
+        P # {} => \A agg \in Agg5 : Eq(Storage(Rule0What(agg), P, 1, 1), Def(agg, P))
 
 \* rule #1  f_over_time(m[r]), r = step
 Rule1Exact ==
     \A s \in Series, b \in 1..NB :
-        Pts({s}, Bucket(b)) # {} =>
-            \A f \in OT7 : Eq(Storage(Rule1What(f), {s}, Bucket(b), R, R), Def(f, Pts({s}, Bucket(b))))
+        LET P == Pts({s}, Bucket(b)) IN
+        P # {} => \A f \in OT7 : Eq(Storage(Rule1What(f), P, R, R), Def(f, P))
 
 \* rule #2  agg(f_over_time(m[r]))
 Rule2Exact ==
-    \A pr \in Pairs2, G \in AllGroups, b \in 1..NB :
-        (Pts(G, Bucket(b)) # {} /\ Pre2(pr[1], pr[2], G, Bucket(b)))
-            => Eq(Storage(Rule2What(pr[1], pr[2]), G, Bucket(b), R, R), TwoLevel2(pr[1], pr[2], G, Bucket(b)))
+    \A G \in AllGroups, b \in 1..NB :
+        LET P == Pts(G, Bucket(b)) IN
+        P # {} => \A pr \in Pairs2 :
+            Pre2(pr[1], pr[2], G, P) => Eq(Storage(Rule2What(pr[1], pr[2]), P, R, R), TwoLevel2(pr[1], pr[2], G, P))
 
 \* rule #3  f_over_time(agg(m)[r:])
 Rule3Exact ==
-    \A pr \in Pairs3, G \in AllGroups, b \in 1..NB :
-        (Pts(G, Bucket(b)) # {} /\ Pre3(pr[1], pr[2], G, Bucket(b)))
-            => Eq(Storage(Rule3What(pr[1], pr[2]), G, Bucket(b), R, R), TwoLevel3(pr[1], pr[2], G, Bucket(b)))
+    \A G \in AllGroups, b \in 1..NB :
+        LET P == Pts(G, Bucket(b)) IN
+        P # {} => \A pr \in Pairs3 :
+            Pre3(pr[1], pr[2], P, Bucket(b)) => Eq(Storage(Rule3What(pr[1], pr[2]), P, R, R), TwoLevel3(pr[1], pr[2], P, Bucket(b)))
 
 \* the rule table accepts exactly these pairs (a change of the table must be looked at)
 Same5 == {<<"sum", "sum">>, <<"count", "count">>, <<"min", "min">>, <<"max", "max">>, <<"avg", "avg">>}
@@ -317,14 +323,17 @@ DataOut == [s \in Series |-> [t \in Slots |-> IF t \in DOMAIN data[s] THEN <<1, 
 AggTable ==
     [i \in 1..Len(GroupSeq) |->
         LET G == GroupSeq[i] IN
-        [ops |-> [oi \in 1..Len(AggOpSeq) |-> [op |-> AggOpSeq[oi], v |-> [t \in Slots |-> V(AggAt(AggOpSeq[oi], G, t))]]],
+        [ops |-> LET PT == [t \in Slots |-> Pts(G, {t})] IN
+                 [oi \in 1..Len(AggOpSeq) |-> [op |-> AggOpSeq[oi], v |-> [t \in Slots |-> V(Def(AggOpSeq[oi], PT[t]))]]],
          top |-> [k \in 1..2 |-> [desc |-> SetToSeq({SetToSeq(T) : T \in TopAdmissible(G, k, TRUE)}),
                                   asc  |-> SetToSeq({SetToSeq(T) : T \in TopAdmissible(G, k, FALSE)})]]]]
 
 OTTable ==
+    LET PW == [w \in 1..WMax |-> [s \in Series |-> [t \in 1..(NT + w - 1) |-> Pts({s}, Window(t, w))]]] IN
     [oi \in 1..Len(OTOpSeq) |->
         [op |-> OTOpSeq[oi],
-         w |-> [w \in 1..WMax |-> [s \in Series |-> [t \in 1..(NT + w - 1) |-> V(IF OTOpSeq[oi] = "present" /\ Pts({s}, Window(t, w)) = {} THEN Absent ELSE OverTime(OTOpSeq[oi], s, t, w))]]]]]
+         w |-> [w \in 1..WMax |-> [s \in Series |-> [t \in 1..(NT + w - 1) |->
+                  V(IF OTOpSeq[oi] = "present" /\ PW[w][s][t] = {} THEN Absent ELSE Def(OTOpSeq[oi], PW[w][s][t]))]]]]]
 
 Agg5Seq == SetToSeq(Agg5)
 OT7Seq  == SetToSeq(OT7)
@@ -334,26 +343,26 @@ RedTable ==
     [\* rule #1: the storage value per series and bucket
      r1 |-> [fi \in 1..Len(OT7Seq) |->
                 [f |-> OT7Seq[fi], what |-> Rule1What(OT7Seq[fi]),
-                 v |-> [s \in Series |-> [b \in 1..NB |-> V(Storage(Rule1What(OT7Seq[fi]), {s}, Bucket(b), R, R))]]]],
+                 v |-> [s \in Series |-> [b \in 1..NB |-> V(Storage(Rule1What(OT7Seq[fi]), Pts({s}, Bucket(b)), R, R))]]]],
      \* rules #2, #3: per distinct group, the pooled storage value the reduced evaluation must return
      \* and whether it equals the two-level definition on this data (side condition)
      r2 |-> [i \in 1..Len(GroupSeq) |-> [ai \in 1..Len(Agg5Seq) |->
-                LET G == GroupSeq[i]  op == Agg5Seq[ai] IN
+                LET G == GroupSeq[i]  op == Agg5Seq[ai]  PB == [b \in 1..NB |-> Pts(G, Bucket(b))] IN
                 [op |-> op, what2 |-> Rule2What(op, op), what3 |-> Rule3What(op, op),
-                 s2 |-> [b \in 1..NB |-> V(Storage(Rule2What(op, op), G, Bucket(b), R, R))],
-                 s3 |-> [b \in 1..NB |-> V(Storage(Rule3What(op, op), G, Bucket(b), R, R))],
-                 x2 |-> [b \in 1..NB |-> Pre2(op, op, G, Bucket(b))],
-                 x3 |-> [b \in 1..NB |-> Pre3(op, op, G, Bucket(b))]]]],
+                 s2 |-> [b \in 1..NB |-> V(Storage(Rule2What(op, op), PB[b], R, R))],
+                 s3 |-> [b \in 1..NB |-> V(Storage(Rule3What(op, op), PB[b], R, R))],
+                 x2 |-> [b \in 1..NB |-> Pre2(op, op, G, PB[b])],
+                 x3 |-> [b \in 1..NB |-> Pre3(op, op, PB[b], Bucket(b))]]]],
      \* two-level definitions on the raw points for every pair (also the irreducible ones), per distinct group:
      \* d2[agg][f] = agg over series of f over the bucket, d3[f][agg] = f over the bucket of agg over series
      \* full2 / full3: every series has a point in the bucket / every slot of the bucket has a point
      \* (count_over_time and count give 0, not "missing", on nothing, so the composition is only fixed when full)
-     d2 |-> [i \in 1..Len(GroupSeq) |->
+     d2 |-> [i \in 1..Len(GroupSeq) |-> LET PB == [b \in 1..NB |-> Pts(GroupSeq[i], Bucket(b))] IN
                 [agg \in 1..Len(Agg5Seq) |-> [f \in 1..Len(OT6Seq) |-> [b \in 1..NB |->
-                    V(TwoLevel2(Agg5Seq[agg], OT6Seq[f], GroupSeq[i], Bucket(b)))]]]],
-     d3 |-> [i \in 1..Len(GroupSeq) |->
+                    V(TwoLevel2(Agg5Seq[agg], OT6Seq[f], GroupSeq[i], PB[b]))]]]],
+     d3 |-> [i \in 1..Len(GroupSeq) |-> LET PB == [b \in 1..NB |-> Pts(GroupSeq[i], Bucket(b))] IN
                 [f \in 1..Len(OT5Seq) |-> [agg \in 1..Len(Agg5Seq) |-> [b \in 1..NB |->
-                    V(TwoLevel3(OT5Seq[f], Agg5Seq[agg], GroupSeq[i], Bucket(b)))]]]],
+                    V(TwoLevel3(OT5Seq[f], Agg5Seq[agg], PB[b], Bucket(b)))]]]],
      full2 |-> [i \in 1..Len(GroupSeq) |-> [b \in 1..NB |-> \A s \in GroupSeq[i] : Pts({s}, Bucket(b)) # {}]],
      full3 |-> [i \in 1..Len(GroupSeq) |-> [b \in 1..NB |-> \A t \in Bucket(b) : Pts(GroupSeq[i], {t}) # {}]],
      agg5 |-> Agg5Seq, ot6 |-> OT6Seq, ot5 |-> OT5Seq]
